@@ -208,6 +208,9 @@ def census(ctx, chk, g, reach, label):
                 if a["fn"] in full or a["fn"] in mir_name(full):
                     ent = a
                     break
+            if ent is None and s["kind"] == "call" and any(w_ in s["detail"] for w_ in ("with_capacity", "::reserve")) and capacity_safe(ctx, g.fns[k]):
+                chk.ok(R2, "%s:%s:auto-capacity" % (short(full), s["detail"][:40]))
+                continue
             if ent is None and s["kind"] == "assert" and (s["detail"].startswith("Overflow(") or s["detail"] == "BoundsCheck") and range_safe(ctx, g.fns[k], s["detail"]):
                 chk.ok(R2, "%s:%s:auto-range" % (short(full), s["detail"]))
                 continue
@@ -272,6 +275,49 @@ def range_safe(ctx, mirfn, kind):
         return rangex.safe_ops(cands[0], kind)
     except Exception:
         return False
+
+
+def capacity_safe(ctx, mirfn):
+    """every capacity request in the function is for a number of elements derived from the length of an existing collection (or a small
+    constant): `capacity overflow` would need that collection to exceed memory.  A capacity taken from an argument or a decoded word is not."""
+    name = mirfn.get("name")
+    if not name:
+        return False
+    range_safe(ctx, mirfn, "Overflow(Add)")      # fills the function index
+    idx = _AST_FN_CACHE[id(ctx)]
+    cands = idx.get(name, [])
+    if len(cands) != 1:
+        return False
+
+    def sized(e):
+        e = unblock(e)
+        if int_of(e) is not None:
+            return int_of(e) < 2 ** 32
+        if e[0] == "mcall" and e[2] in ("len", "count") and not e[3]:
+            return True
+        if e[0] == "mcall" and e[2] in ("min", "saturating_sub", "checked_sub") and e[3]:
+            return sized(e[1]) or sized(e[3][0])
+        if e[0] == "field" and e[2] in ("0", "1") and unblock(e[1])[0] == "mcall" and unblock(e[1])[2] == "size_hint":
+            return True
+        if e[0] == "binary" and e[1] in ("+", "-", "*", "/", "%"):
+            return sized(e[2]) and sized(e[3])
+        if e[0] == "cast":
+            return sized(e[1])
+        if e[0] == "paren":
+            return sized(e[1])
+        return False
+    found = False
+    for n in walk(cands[0]["body"]):
+        arg = None
+        if n[0] == "call" and (path_of(n[1]) or "").endswith("with_capacity") and len(n[2]) == 1:
+            arg = n[2][0]
+        if n[0] == "mcall" and n[2] in ("reserve", "reserve_exact") and len(n[3]) == 1:
+            arg = n[3][0]
+        if arg is not None:
+            found = True
+            if not sized(arg):
+                return False
+    return found
 
 
 def short(k):
